@@ -384,6 +384,31 @@ func Bash(src string, slow int) Result {
 	}
 }
 
+// BashStderr re-runs src under bash and returns its standard error (used only to attribute
+// an already observed difference to a known-finding class).
+func BashStderr(src string) string {
+	dir := newCaseDir()
+	defer os.RemoveAll(dir)
+	work := filepath.Join(dir, "w")
+	os.Mkdir(work, 0o755)
+	script := filepath.Join(dir, "prog.sh")
+	if err := os.WriteFile(script, []byte(src), 0o644); err != nil {
+		return ""
+	}
+	ctx, cancel := context.WithTimeout(context.Background(), 20*time.Second)
+	defer cancel()
+	cmd := exec.CommandContext(ctx, "/bin/bash", "--norc", "--noprofile", "-c",
+		`ulimit -v 2000000 -f 20000 2>/dev/null; exec /bin/bash --norc --noprofile "$1"`, "_", script)
+	cmd.Env = []string{"PATH=" + filepath.Join(ScratchRoot(), "emptypath"), "HOME=" + work, "LC_ALL=C.UTF-8"}
+	cmd.Dir = work
+	var errb bytes.Buffer
+	cmd.Stdout = io.Discard
+	cmd.Stderr = &limitWriter{w: &errb, n: outCap}
+	cmd.SysProcAttr = &syscall.SysProcAttr{Setsid: true}
+	cmd.Run()
+	return errb.String()
+}
+
 type limitWriter struct {
 	w io.Writer
 	n int
